@@ -179,7 +179,7 @@ def run_mc(pid, tier, workdir):
                 raise ToolError('model %s (%s) failed:\n%s' % (module, what, err or out[-2000:]))
             total['states'] += st['distinct']
             total['transitions'] += st['generated']
-            total['models'].append({'module': module, 'scope': what, 'distinct_states': st['distinct'],
+            total['models'].append({'module': module, 'scope': what, 'exhaustive_within_scope': True, 'distinct_states': st['distinct'],
                                     'transitions': st['generated'], 'wall_s': round(time.time() - t0, 1)})
             log('[mc] %s %s: %d distinct states, %d transitions, %.1fs' % (module, what, st['distinct'], st['generated'], time.time() - t0))
     return total
